@@ -36,10 +36,11 @@ Definition is_env (o : Op) : bool :=
 (* ---------- C01 custody ---------- *)
 Definition check_C01 (pre : State) (o : Op) (c : Z) (post : State) : list Z :=
   flat_map (fun d =>
-    if d =? BOND_DENOM then []    (* the staking denom is burned each block; C11 / F-C01-2 *)
-    else
-      clause 1 (0 <=? slack post d)                                   (* never short *)
-      ++ (if is_env o then [] else clause 2 (slack post d =? slack pre d)))   (* no silent drift *)
+    clause 1 (0 <=? slack post d)                                   (* never short *)
+    (* no silent drift; virtual staking tokens and staking-denom rewards pass through the
+       custody account and are swept every block (C11), the staking denom itself cannot be an
+       alliance asset, so only the shortfall clause is meaningful for it *)
+    ++ (if is_env o || (d =? BOND_DENOM) then [] else clause 2 (slack post d =? slack pre d)))
     (nodup_z (denoms_of pre ++ denoms_of post)).
 
 (* ---------- C02 / C15 queue and index bookkeeping ---------- *)
@@ -399,6 +400,41 @@ Definition check_C10 (pre : State) (o : Op) (c : Z) (post : State) : list Z :=
     else []
   | _ => []
   end.
+
+(* ---------- C05 / C20: liveness probes ---------- *)
+(* What a delegator can do in state [s], evaluated on a discarded copy of the state with an
+   environment in which x/distribution has nothing pending for the validator ([v], no coins).
+   The result is the model's error code of the message, 0 when it succeeds. *)
+Definition vinfo_or_empty (s : State) (v : Z) : ValInfo :=
+  match kget (valinfos s) [v] with Some vi => vi | None => empty_valinfo end.
+(* the reported balance of a position (QueryAllianceDelegation.Balance) *)
+Definition reported_balance (s : State) (k : Key) : Z :=
+  match k with
+  | [_; v; dn] =>
+    match kget (delegations s) k, kget (assets s) [dn] with
+    | Some d, Some a => del_tokens d (vinfo_or_empty s v) a
+    | _, _ => 0
+    end
+  | _ => 0
+  end.
+Definition quiet (v : Z) (s : State) : State := set_oracle [(v, [])] s.
+Definition probe_exit (s : State) (k : Key) : Z :=
+  match k with
+  | [del; v; dn] => let b := reported_balance s k in
+                    if 0 <? b then res_code (msg_undelegate del v dn b (quiet v s)) else 0
+  | _ => 0
+  end.
+Definition probe_claim (s : State) (k : Key) : Z :=
+  match k with
+  | [del; v; dn] => if 0 <? reported_balance s k then res_code (msg_claim del v dn (quiet v s)) else 0
+  | _ => 0
+  end.
+Definition probe_enter (s : State) (del v dn amt : Z) : Z := res_code (msg_delegate del v dn amt (quiet v s)).
+(* positions that cannot leave / cannot claim *)
+Definition exit_blocked (s : State) : list (Key * Z) :=
+  filter (fun kz => negb (snd kz =? 0)) (map (fun kv => (fst kv, probe_exit s (fst kv))) (delegations s)).
+Definition claim_blocked (s : State) : list (Key * Z) :=
+  filter (fun kz => negb (snd kz =? 0)) (map (fun kv => (fst kv, probe_claim s (fst kv))) (delegations s)).
 
 (* ---------- dispatcher ---------- *)
 Definition check_step (p : Z) (pre : State) (o : Op) (c : Z) (post : State) : list Z :=
